@@ -357,6 +357,25 @@ func groupSelectionSetForNodeField(ctx *PlanningContext, selectionSet ast.Select
 	}
 
 	for _, field := range nodeFields {
+		// with fragments on several types the scrub fields of the answer are told apart by
+		// __typename: it then goes to every service with the fragments (sanitizing has put it
+		// next to them, unless the client selected it itself)
+		var typenameField *ast.Field
+		typeConditions := make(map[string]struct{})
+		for _, selection := range field.SelectionSet {
+			switch s := selection.(type) {
+			case *ast.Field:
+				if s.Name == common.TypenameFieldName {
+					typenameField = s
+				}
+			case *ast.InlineFragment:
+				typeConditions[s.TypeCondition] = struct{}{}
+			}
+		}
+		if len(typeConditions) < 2 {
+			typenameField = nil
+		}
+
 		for _, selection := range field.SelectionSet {
 			frag, ok := selection.(*ast.InlineFragment)
 			if !ok {
@@ -403,6 +422,9 @@ func groupSelectionSetForNodeField(ctx *PlanningContext, selectionSet ast.Select
 			for key, value := range innerRes {
 				newField := *field
 				newField.SelectionSet = value
+				if typenameField != nil {
+					newField.SelectionSet = append(ast.SelectionSet{typenameField}, value...)
+				}
 				res[key] = append(res[key], &newField)
 			}
 		}
